@@ -30,6 +30,9 @@ CHECKS = {
  "C20": dict(engine="E2", technique="exhaustive sweep: every prefix of every generated request/response head through four monomorphic instances of each public parser vs an independent parser",
              text="Response and request heads with f fields for every f in 0..=N+2 for each limit N in {0,1,4,128} are offered at every prefix length and with trailing bytes to try_parse_response::<N>, try_parse_partial_response::<N> and try_parse_request::<N>; complete/incomplete/too-many verdicts, message content, reported length and the partial parser's 'only completely present fields, in order' rule are checked in every cell.",
              note="Field lists beyond length 2/3 are rotations of the pool rather than all ordered lists.", ref="4/C20"),
+ "C01": dict(engine="E1", technique="explicit-state search over the real flow per exchange: complete graph of (full internal-state fingerprint, consumed, arrived, body cursor) under all buffer sizes and 1-byte arrivals, reference models + single-outcome oracle",
+             text="For every exchange of the request x server menu the complete reachable graph is explored with the real Flow object inside each state: head writes with every buffer size, body writes and direct-write reports over a size menu, 1-byte arrivals (so every window stream[consumed..arrived] a caller can present is presented), try_read_100 / give-up / try_response / read at every window, proceed whenever ready. Every transition is checked against reference models (independent head parser, strict chunk decoder, framing and close-condition models, message boundaries known by construction), every state checks query purity and readiness-vs-proceed, every final state must carry the same observation, consume exactly the message lengths and give the reference reuse verdict, and every state must be able to reach the end (no livelock). Final and intermediate traces are replayed clone-free on fresh objects.",
+             note="Menus are finite (listed in the evidence rule); payload bytes are pattern bytes; windows inside a 3xx head after a complete Location line are excluded (owned by C05 / KF1); multi-response sessions are represented by trailing bytes of a next response that must stay unconsumed.", ref="4/C01"),
 }
 ALL = ["C%02d" % i for i in range(1, 21)]
 NA_REASON = "check not built yet (work in progress; not a claim that model checking cannot apply)"
